@@ -39,11 +39,18 @@ func GenPair(r *core.RNG, depth int) (TypeJ, ValJ) {
 	for i := 0; i < 50; i++ {
 		var t TypeJ
 		switch k := r.Intn(10); {
-		case k < 3:
-			t = nm(core.Pick(r, []string{"c10types.Box", "c10types.Wrap", "c10types.Node", "image.Point", "c10types.Inner"}))
-		case k < 5:
-			t = nm(core.Pick(r, []string{"time.Duration", "time.Month", "fs.FileMode", "net.IP", "url.Values", "reflect.Kind", "c10types.Color"}))
+		case k < 2:
+			// two packages called c10types: who gets the short name depends on the order of registration
+			a, b := nm(core.Pick(r, []string{"c10alt.Tag", "c10alt.Unit"})), nm(core.Pick(r, []string{"c10types.Inner", "c10types.Box", "c10types.Color"}))
+			if r.Bool() {
+				a, b = b, a
+			}
+			t = core.Pick(r, []TypeJ{structT(fld("A", a), fld("B", b)), mapT(sc("string"), structT(fld("X", a), fld("Y", sliceT(b)))), sliceT(structT(fld("P", ptrT(a)), fld("Q", b))), mapT(a, b)})
+		case k < 4:
+			t = nm(core.Pick(r, []string{"c10types.Box", "c10types.Wrap", "c10types.Node", "image.Point", "c10types.Inner", "c10alt.Tag", "c10alt.Frame", "image.Rectangle"}))
 		case k < 6:
+			t = nm(core.Pick(r, []string{"time.Duration", "time.Month", "fs.FileMode", "net.IP", "url.Values", "reflect.Kind", "c10types.Color"}))
+		case k < 7:
 			e := nm(core.Pick(r, []string{"c10types.Box", "image.Point", "time.Duration", "c10types.Wrap"}))
 			t = core.Pick(r, []TypeJ{sliceT(e), ptrT(e), mapT(sc("string"), e), arrayT(2, e), structT(fld("A", e), fld("B", nm("c10types.Box")))})
 		default:
@@ -62,3 +69,13 @@ func GenPair(r *core.RNG, depth int) (TypeJ, ValJ) {
 	t := sc("int")
 	return t, ival(int64(r.Intn(100)))
 }
+
+// StructOf / FieldsVal: an unnamed struct type over named field types, and a value for it from per-field values.
+func StructOf(names []string, types []TypeJ) TypeJ {
+	var fs []FieldJ
+	for i := range names {
+		fs = append(fs, fld(names[i], types[i]))
+	}
+	return structT(fs...)
+}
+func FieldsVal(vs ...ValJ) ValJ { return lval(vs...) }
